@@ -66,31 +66,78 @@ func VerifC04_IndexStores() {
 			verifSameIndex(idx, direct, "index stored by the server")
 		}
 	case 2:
-		nfail := vChoose("failed-attempts", 3)
-		var stored []byte
-		rt := &verifRT{}
-		rt.f = func(r *http.Request) (*http.Response, error) {
-			if rt.calls <= nfail {
-				if vChoose("failure-kind", 2) == 0 {
-					io.CopyN(ioutil.Discard, r.Body, int64(vChoose("body-read-before-reset", 3)*20))
-					return nil, verifTransportErr
-				}
-				io.Copy(ioutil.Discard, r.Body)
-				return verifResp(503, nil), nil
+		verifIndexPutRetry(idx)
+	}
+}
+
+// verifIndexPutRetry: StoreIndex against a scripted server whose first attempts fail.
+func verifIndexPutRetry(idx Index) {
+	nfail := vChoose("failed-attempts", 3)
+	var stored []byte
+	rt := &verifRT{}
+	rt.f = func(r *http.Request) (*http.Response, error) {
+		if rt.calls <= nfail {
+			if vChoose("failure-kind", 2) == 0 {
+				io.CopyN(ioutil.Discard, r.Body, int64(vChoose("body-read-before-reset", 3)*20))
+				return nil, verifTransportErr
 			}
-			stored, _ = ioutil.ReadAll(r.Body)
-			return verifResp(200, nil), nil
+			io.Copy(ioutil.Discard, r.Body)
+			return verifResp(503, nil), nil
 		}
-		c := &RemoteHTTPIndex{verifHTTPStore(rt, StoreOptions{ErrorRetry: 3}).RemoteHTTPBase}
-		err := c.StoreIndex("a.caibx", idx)
-		vCover("scripted-put-returned")
-		vAssert(err == nil, "transient failures below the retry budget were visible")
-		if err == nil {
-			back, rerr := IndexFromReader(bytes.NewReader(stored))
-			vAssert(rerr == nil, "StoreIndex reported success but the bytes the server stored are not a complete index")
-			if rerr == nil {
-				verifSameIndex(idx, back, "index stored after retries")
+		stored, _ = ioutil.ReadAll(r.Body)
+		return verifResp(200, nil), nil
+	}
+	c := &RemoteHTTPIndex{verifHTTPStore(rt, StoreOptions{ErrorRetry: 3}).RemoteHTTPBase}
+	err := c.StoreIndex("a.caibx", idx)
+	vCover("scripted-put-returned")
+	vAssert(err == nil, "transient failures below the retry budget were visible")
+	if err == nil {
+		back, rerr := IndexFromReader(bytes.NewReader(stored))
+		vAssert(rerr == nil, "StoreIndex reported success but the bytes the server stored are not a complete index")
+		if rerr == nil {
+			verifSameIndex(idx, back, "index stored after retries")
+		}
+	}
+}
+
+// VerifC14_IndexRetry: indexes over HTTP under transient failures below the retry budget -
+// the PUT that finally succeeds carries the complete index, a GET delivers the index the
+// server holds, and a 404 is reported as a missing object, not as success or a transport error.
+func VerifC14_IndexRetry() {
+	vSchedFixed(true)
+	idx := verifSymIndex(vChoose("chunks", 2))
+	verifDigestFor(idx.Index.FeatureFlags)
+	if vChoose("op", 2) == 0 {
+		verifIndexPutRetry(idx)
+		return
+	}
+	var wire bytes.Buffer
+	idx.WriteTo(&wire)
+	nfail := vChoose("failed-attempts", 3)
+	final := vChoose("final", 2)
+	rt := &verifRT{}
+	rt.f = func(r *http.Request) (*http.Response, error) {
+		if rt.calls <= nfail {
+			if vChoose("failure-kind", 2) == 0 {
+				return nil, verifTransportErr
 			}
+			return verifResp(502, nil), nil
 		}
+		if final == 1 {
+			return verifResp(404, nil), nil
+		}
+		return verifResp(200, wire.Bytes()), nil
+	}
+	c := &RemoteHTTPIndex{verifHTTPStore(rt, StoreOptions{ErrorRetry: 3}).RemoteHTTPBase}
+	back, err := c.GetIndex("a.caibx")
+	vCover("scripted-get-returned")
+	if final == 1 {
+		_, missing := err.(NoSuchObject)
+		vAssert(missing, "a missing index is not reported as NoSuchObject")
+		return
+	}
+	vAssert(err == nil, "transient failures below the retry budget were visible on GET")
+	if err == nil {
+		verifSameIndex(idx, back, "index fetched after retries")
 	}
 }
